@@ -131,7 +131,7 @@ def do_task(sb, t):
             rows[str(uc)] = [cfg.KEEP, cfg.REMOVE, cfg.ADD, cfg.INFO, cfg.RESET]
         res['constants'] = rows
     elif op == 'cli':
-        res.update(do_cli(sb, t))
+        res.update(do_cli_git(sb, t) if t.get('app') == 'nbdiff-git' else do_cli(sb, t))
     else:
         raise ValueError(op)
     return res
@@ -184,6 +184,73 @@ def do_cli(sb, t):
         os.environ['PATH'] = sb.orig_path
         return {'recs': recs}
     finally:
+        os.chdir(cwd)
+        shutil.rmtree(d, ignore_errors=True)
+
+def _write_tree(work, tree):
+    """make the working tree under `work` hold exactly the files of `tree` (path -> notebook dict | text)"""
+    for root, dirs, files in os.walk(work):
+        if '.git' in dirs: dirs.remove('.git')
+        for f in files: os.remove(os.path.join(root, f))
+    for rel, doc in tree.items():
+        p = os.path.join(work, *rel.split('/'))
+        os.makedirs(os.path.dirname(p), exist_ok=True)
+        with open(p, 'w', encoding='utf8') as fh:
+            if isinstance(doc, str): fh.write(doc)
+            else:
+                json.dump(doc, fh, indent=1, ensure_ascii=False); fh.write('\n')
+
+def do_cli_git(sb, t):
+    """nbdiff in git-revision mode: a scratch repository holding t['commits'] (one full tree per commit, tagged t0, t1, ...)
+    and optionally an uncommitted working tree t['worktree']; nbdiffapp.main runs in-process from the repository root with
+    argv = flags + refs + paths ('SHA:k' stands for the abbreviated object name of commit k)."""
+    import contextlib, subprocess
+    d = tempfile.mkdtemp(prefix='nbv_c16git_')
+    cwd = os.getcwd()
+    work = os.path.join(d, 'work'); os.makedirs(work)
+    genv = dict(os.environ, PATH=sb.orig_path)
+    def git(*a):
+        p = subprocess.run([sb.real['git'], '-c', 'user.name=t', '-c', 'user.email=t@example.org', '-c', 'commit.gpgsign=false',
+                            '-c', 'core.autocrlf=false'] + list(a), cwd=work, env=genv, capture_output=True, text=True)
+        if p.returncode != 0: raise RuntimeError('git %s: %s' % (' '.join(a), p.stderr[-300:]))
+        return p.stdout.strip()
+    try:
+        git('init', '-q', '-b', 'main')
+        shas = []
+        for k, tree in enumerate(t['commits']):
+            _write_tree(work, tree)
+            git('add', '-A'); git('commit', '-q', '--allow-empty', '-m', 'commit %d' % k); git('tag', 't%d' % k)
+            shas.append(git('rev-parse', 'HEAD'))
+        if t.get('worktree') is not None: _write_tree(work, t['worktree'])
+        os.chdir(work)
+        recs = []
+        for argv, tools in zip(t['argvs'], t['tools']):
+            argv = [shas[int(x[4:])][:12] if x.startswith('SHA:') else x for x in argv]
+            sb.set_tools(*tools)
+            buf = io.StringIO(); rec = {}
+            try:
+                with contextlib.redirect_stdout(buf):
+                    from nbdime import nbdiffapp
+                    rc = nbdiffapp.main(argv)
+                rec['rc'] = rc; rec['out'] = buf.getvalue()
+            except SystemExit as e:
+                rec['rc'] = e.code; rec['out'] = buf.getvalue(); rec['exit'] = True
+            except BaseException as e:
+                tb = traceback.extract_tb(e.__traceback__)
+                rec.update(err=type(e).__name__, msg=str(e)[:300], partial=buf.getvalue()[-300:],
+                           where=['%s:%s' % (os.path.basename(f.filename), f.name) for f in tb if 'nbdime' in f.filename][-3:])
+            finally:
+                try:
+                    from nbdime.diffing.notebooks import reset_notebook_differ
+                    reset_notebook_differ()
+                except Exception:
+                    pass
+            rec['tools'] = sb.take_log()
+            recs.append(rec)
+        os.environ['PATH'] = sb.orig_path
+        return {'recs': recs}
+    finally:
+        os.environ['PATH'] = sb.orig_path
         os.chdir(cwd)
         shutil.rmtree(d, ignore_errors=True)
 
